@@ -493,7 +493,10 @@ def write_evidence(pid, prop, plan, tier, seed, agg, wall, nviol, sweep_total, e
         "distinct_nontrivial": len(agg["sigs"]),
         "rule": getattr(prop, "RULE", ""),
         "samples": agg["samples"][:6] or ["<no sample recorded>"],
-        "exhaustive": bool(exhaustive_note) and not nviol,
+        # 'exhaustive' = the enumerated finite space the level claims was completed (fault_enumeration checks); exploration checks also sweep a
+        # finite sub-space completely, reported as sweep_exhaustive + exhaustive_subspace, without claiming the property's space is finite
+        "exhaustive": bool(exhaustive_note) and not nviol and prop.LEVEL == "fault_enumeration",
+        "sweep_exhaustive": bool(exhaustive_note) and not nviol,
         "exhaustive_subspace": exhaustive_note or "",
         "sweep_specs": sweep_total,
         "per_scenario": dict(agg["per_scenario"]),
